@@ -274,61 +274,70 @@ impl Archive {
         };
         debug!("Got gc lock");
 
-        debug!("List band ids...");
-        let mut keep_band_ids = self.list_band_ids().await?;
-        keep_band_ids.retain(|b| !delete_band_ids.contains(b));
+        // Do the work inside a block so that the lock is released on every way out. Dropping
+        // the lock can only spawn a task to remove it, which never runs if the process exits
+        // on the error: the archive would then stay locked against backups.
+        let result: Result<()> = async {
+            debug!("List band ids...");
+            let mut keep_band_ids = self.list_band_ids().await?;
+            keep_band_ids.retain(|b| !delete_band_ids.contains(b));
 
-        debug!("List referenced blocks...");
-        let referenced = self
-            .referenced_blocks(&keep_band_ids, monitor.clone())
-            .await?;
-        debug!(referenced.len = referenced.len());
+            debug!("List referenced blocks...");
+            let referenced = self
+                .referenced_blocks(&keep_band_ids, monitor.clone())
+                .await?;
+            debug!(referenced.len = referenced.len());
 
-        debug!("Find present blocks...");
-        let block_dir = self.block_dir().await?;
-        let present: HashSet<BlockHash> = block_dir.blocks().iter().cloned().collect();
-        debug!(present.len = present.len());
+            debug!("Find present blocks...");
+            let block_dir = self.block_dir().await?;
+            let present: HashSet<BlockHash> = block_dir.blocks().iter().cloned().collect();
+            debug!(present.len = present.len());
 
-        debug!("Find unreferenced blocks...");
-        let unref = present.difference(&referenced).collect_vec();
-        let unref_count = unref.len();
-        debug!(unref_count);
-        stats.unreferenced_block_count = unref_count;
+            debug!("Find unreferenced blocks...");
+            let unref = present.difference(&referenced).collect_vec();
+            let unref_count = unref.len();
+            debug!(unref_count);
+            stats.unreferenced_block_count = unref_count;
 
-        debug!("Measure unreferenced blocks...");
-        let task = monitor.start_task("Measure unreferenced blocks".to_string());
-        task.set_total(unref_count);
-        // TODO: Parallelize
-        let mut total_bytes = 0;
-        for block_id in &unref {
-            total_bytes += block_dir.compressed_size(block_id).await?;
-            task.increment(1);
-        }
-        drop(task);
-        stats.unreferenced_block_bytes = total_bytes;
-
-        if !options.dry_run {
-            gc_lock.check().await?;
-            let task = monitor.start_task("Delete bands".to_string());
-
-            for band_id in delete_band_ids.iter() {
-                Band::delete(self, *band_id).await?;
-                stats.deleted_band_count += 1;
-                task.increment(1);
-            }
-
-            let task = monitor.start_task("Delete blocks".to_string());
+            debug!("Measure unreferenced blocks...");
+            let task = monitor.start_task("Measure unreferenced blocks".to_string());
             task.set_total(unref_count);
-            let mut error_count = 0;
-            for block_hash in unref {
-                // TODO: Parallelize
+            // TODO: Parallelize
+            let mut total_bytes = 0;
+            for block_id in &unref {
+                total_bytes += block_dir.compressed_size(block_id).await?;
                 task.increment(1);
-                error_count += block_dir.delete_block(block_hash).await.is_err() as usize;
             }
-            stats.deletion_errors += error_count;
-            stats.deleted_block_count += unref_count - error_count;
+            drop(task);
+            stats.unreferenced_block_bytes = total_bytes;
+
+            if !options.dry_run {
+                gc_lock.check().await?;
+                let task = monitor.start_task("Delete bands".to_string());
+
+                for band_id in delete_band_ids.iter() {
+                    Band::delete(self, *band_id).await?;
+                    stats.deleted_band_count += 1;
+                    task.increment(1);
+                }
+
+                let task = monitor.start_task("Delete blocks".to_string());
+                task.set_total(unref_count);
+                let mut error_count = 0;
+                for block_hash in unref {
+                    // TODO: Parallelize
+                    task.increment(1);
+                    error_count += block_dir.delete_block(block_hash).await.is_err() as usize;
+                }
+                stats.deletion_errors += error_count;
+                stats.deleted_block_count += unref_count - error_count;
+            }
+            Ok(())
         }
-        gc_lock.release().await?;
+        .await;
+        let released = gc_lock.release().await;
+        result?;
+        released?;
 
         stats.elapsed = start.elapsed();
         Ok(stats)
